@@ -27,7 +27,8 @@ TRUSTED = [
     "a schedule is modelled as an arbitrary permutation of the submitted results (List.Perm); loky / pickling / MPI are exercised, not modelled",
 ]
 ASSUMPTIONS = [
-    "identifiers are generated so that none is a suffix of another (C13's drop_not_completed finding is out of scope here)",
+    "identifier sets include suffix / prefix / substring families ('a1','ba1','cba1','a1b','1a','a',…) in every order; identifiers containing a dot or the "
+    "store suffix ('x.fasta' vs 'x', 'sojson') are left to C13 (open findings C13-identifier-spelling-not-normalised / C13-suffix-substring-rewriting)",
     "worker crashes, unpicklable results and MPI execution are not exhibited",
     "traceback text is compared by its last line only",
 ]
